@@ -21,13 +21,13 @@ def sv(ns, x, unit):
     return ns.SourceValue(x * ns.u(unit))
 
 
-def usage(ns, jobs, name="up"):
+def usage(ns, jobs, name="up", scale=1):
     c = ns.classes
     step = c["UsageJourneyStep"]("step", user_time_spent=sv(ns, 20, "min"), jobs=jobs)
     uj = c["UsageJourney"]("journey", uj_steps=[step])
     up = c["UsagePattern"](name, uj, [c["Device"].from_defaults("device")], c["Network"].from_defaults("network"),
                            c["Country"].from_defaults("country", short_name="CTR"),
-                           efx.hourly(ns, [3, 1, 4, 1, 5, 9, 2, 6], "2025-01-01T00:00:00"))
+                           efx.hourly(ns, [x * scale for x in (3, 1, 4, 1, 5, 9, 2, 6)], "2025-01-01T00:00:00"))
     return c["System"]("system", usage_patterns=[up])
 
 
@@ -302,35 +302,50 @@ def genai_events(ns, rng, tid0, tier):
     return events, tid
 
 
+def relink_servers(ns, kind, **storage_kw_makers):
+    c = ns.classes
+
+    class _Fresh(dict):         # every storage gets value objects of its own
+        def keys(self):
+            return storage_kw_makers.keys()
+
+        def __getitem__(self, k):
+            return storage_kw_makers[k]()
+    storage_kw = _Fresh()
+    if kind == "GenAIModel":
+        mk = lambda n, ram: c["GPUServer"].from_defaults(n, storage=c["Storage"].from_defaults("storage " + n, **storage_kw),
+                                                         compute=sv(ns, 64, "gpu"), ram_per_gpu=sv(ns, ram, "GB/gpu"))
+        return mk("server A", 80), mk("server B", 40)
+    return (c["Server"].from_defaults("server A", storage=c["Storage"].from_defaults("storage", **storage_kw)),
+            c["Server"].from_defaults("server B", storage=c["Storage"].from_defaults("storage B", **storage_kw), ram=sv(ns, 64, "GB")))
+
+
+def relink_build(ns, kind, job_on, svc1_on, scale=1, **storage_kw):
+    # storage_kw: attribute -> function returning a new value object
+    """services 1 and 2 (2 on server B, without job unless job_on == 2); the job on service job_on; service 1 on svc1_on"""
+    c = ns.classes
+    a, b = relink_servers(ns, kind, **storage_kw)
+    svc_cls, job_cls = {"VideoStreaming": ("VideoStreaming", "VideoStreamingJob"), "WebApplication": ("WebApplication", "WebApplicationJob"),
+                        "GenAIModel": ("GenAIModel", "GenAIJob")}[kind]
+    s1 = c[svc_cls].from_defaults("service 1", server=a if svc1_on == "A" else b)
+    s2 = c[svc_cls].from_defaults("service 2", server=b)
+    job = c[job_cls].from_defaults("service job", service=s1 if job_on == 1 else s2)
+    if kind != "GenAIModel":            # both servers stay in the system whatever is moved
+        keep = c["Job"].from_defaults("plain job A", server=a)
+        keep_b = c["Job"].from_defaults("plain job B", server=b)
+    else:                               # a GPU server only runs GPU jobs
+        keep = c[job_cls].from_defaults("genai job A", service=c[svc_cls].from_defaults("service 0", server=a))
+        keep_b = c[job_cls].from_defaults("genai job B", service=c[svc_cls].from_defaults("service 3", server=b))
+    return usage(ns, [job, keep, keep_b], scale=scale), job, s1, s2, a, b
+
+
 def relink_events(ns, rng, tid0, tier):
     """the links of the builders are inputs too: a service job moved to another service (which has no job yet and runs on another
     server), a service moved to another server -- the live model must equal the model built that way from scratch"""
     c = ns.classes
     events, tid = [], tid0
 
-    def servers(kind):
-        if kind == "GenAIModel":
-            mk = lambda n, ram: c["GPUServer"].from_defaults(n, storage=c["Storage"].from_defaults("storage " + n),
-                                                             compute=sv(ns, 64, "gpu"), ram_per_gpu=sv(ns, ram, "GB/gpu"))
-            return mk("server A", 80), mk("server B", 40)
-        return (plain_server(ns, "server A"),
-                c["Server"].from_defaults("server B", storage=c["Storage"].from_defaults("storage B"), ram=sv(ns, 64, "GB")))
-
-    def build(kind, job_on, svc1_on):
-        """services 1 and 2 (2 on server B, without job unless job_on == 2); the job on service job_on; service 1 on svc1_on"""
-        a, b = servers(kind)
-        svc_cls, job_cls = {"VideoStreaming": ("VideoStreaming", "VideoStreamingJob"), "WebApplication": ("WebApplication", "WebApplicationJob"),
-                            "GenAIModel": ("GenAIModel", "GenAIJob")}[kind]
-        s1 = c[svc_cls].from_defaults("service 1", server=a if svc1_on == "A" else b)
-        s2 = c[svc_cls].from_defaults("service 2", server=b)
-        job = c[job_cls].from_defaults("service job", service=s1 if job_on == 1 else s2)
-        if kind != "GenAIModel":            # both servers stay in the system whatever is moved
-            keep = c["Job"].from_defaults("plain job A", server=a)
-            keep_b = c["Job"].from_defaults("plain job B", server=b)
-        else:                               # a GPU server only runs GPU jobs
-            keep = c[job_cls].from_defaults("genai job A", service=c[svc_cls].from_defaults("service 0", server=a))
-            keep_b = c[job_cls].from_defaults("genai job B", service=c[svc_cls].from_defaults("service 3", server=b))
-        return usage(ns, [job, keep, keep_b]), job, s1, s2, a, b
+    build = lambda kind, job_on, svc1_on: relink_build(ns, kind, job_on, svc1_on)
     for kind in ("VideoStreaming", "WebApplication", "GenAIModel"):
         for what in ("job.service", "service.server"):
             tid += 1
